@@ -133,14 +133,24 @@ def extendMatchPtrT (P : TwinParams) (mem : List Nat) (p1 n1 p2 n2 : Nat) : Nat 
 def absReads (p1 p2 : Nat) (rs : List (Nat × Nat)) : List Nat :=
   rs.flatMap fun r => (List.range r.2).map (p1 + r.1 + ·) ++ (List.range r.2).map (p2 + r.1 + ·)
 
+/-- `(limit - current_len) as usize` for non-negative `i32` arguments: the `i32` difference cannot
+    overflow, a negative one sign-extends to `2^64 - (current_len - limit)`.  (Found by running
+    `get_match_len_fast_reject`, which calls `extend_match` with `current_len = 2`, with length limits
+    0 and 1 against the real code: the optimized twin then extends up to the physical end of the buffer.) -/
+def extLogical (limit curLen : Nat) : Nat :=
+  if curLen ≤ limit then limit - curLen else 2 ^ 64 - (curLen - limit)
+
 /-- `extend_match`, portable: `&buf[start1..start1 + ext]` panics when out of range (`none`).
     `i32` arguments are taken as naturals: the callers pass `0 ≤ current_len ≤ limit`,
-    `1 ≤ distance ≤ read_pos + current_len`. -/
+    `1 ≤ distance ≤ read_pos + current_len` (`start1 - distance` underflows otherwise: a panic with
+    overflow checks, a wild `get_unchecked` without — NOT modelled, `Nat` subtraction truncates).
+    With `limit < current_len` the extension is `2^64 - …`: `start1 + ext` overflows or is out of range,
+    in both cases a panic. -/
 def extendMatchPortable (P : TwinParams) (buf : List Nat) (readPos curLen dist limit : Nat) :
     Option Nat :=
   let start1 := readPos + curLen
   let start2 := start1 - dist
-  let ext := limit - curLen
+  let ext := extLogical limit curLen
   if start1 + ext ≤ buf.length then
     some (curLen + extendMatchSafe P (slice buf start1 ext) (slice buf start2 ext))
   else none
@@ -151,7 +161,7 @@ def extendMatchOptT (P : TwinParams) (buf : List Nat) (readPos curLen dist limit
     Nat × List Nat :=
   let start1 := readPos + curLen
   let start2 := start1 - dist
-  let ext := min (limit - curLen) (buf.length - start1)
+  let ext := min (extLogical limit curLen) (buf.length - start1)
   let r := extendMatchPtrT P buf start1 ext start2 ext
   (curLen + r.1, absReads start1 start2 r.2)
 
